@@ -131,6 +131,7 @@ OPS = [
     O('uint.add_mod_special', ['u', 'u', 'l'], lean='uint_add_mod_special_ni'), O('uint.sub_mod_special', ['u', 'u', 'l'], lean='uint_sub_mod_special_ni'), O('uint.mul_mod_special', ['u', 'u', 'nzl'], lean='uint_mul_mod_special_ni'),
     O('uint.mul_mod', ['u', 'u', 'omod'], wq=[1, 2, 4], heavy=6, lean='uint_mul_mod_ni'),
     O('uint.mul_mod_trait', ['u', 'u', 'nz'], wq=[1, 2, 4], lean='mul_mod_trait_leaks_modulus', heavy=4),
+    O('boxed.rem_mixed', ['u', 'nz'], wq=[1, 2, 4], heavy=2),
     O('uint.inv_mod2k', ['u', 'k'], wq=[1, 2, 4], lean='uint_inv_mod2k_ni', heavy=8), O('uint.inv_mod2k_vartime', 'u', ['k'], wq=[1, 2, 4], kind='vt', lean='inv_mod2k_vartime_trace_pub', heavy=4),
     O('uint.inv_odd_mod', ['u', '-', 'omod'], wq=[1, 2, 4], lean='jump_leaks', heavy=8), O('uint.inv_mod', ['u', '-', 'nz'], wq=[1, 2, 4], lean='jump_leaks', heavy=16),
     O('uint.gcd', ['u', 'u'], wq=[1, 2, 4], lean='jump_leaks', heavy=8),
